@@ -24,6 +24,9 @@ func checkC17(c *Ctx, r *Report) {
 	c17R4(c, r)
 	c17R5(c, r)
 	c17R6(c, r)
+	c17Validity(c, r)
+	c17IterLoop(c, r)
+	c17KeyTag(c, r)
 }
 
 // c17R6: the RSA public-key decoder accepts every modulus size the generator can produce.
